@@ -259,6 +259,11 @@ def run(chk):
         # under one key carries the same offset  -(number of selected rows) x (average row noise))
         from rules import c04, c07
         c07.check_ks_noise(c04._Sub(chk, "R4"), v, rule="R4")
+        # the facts about the key switch below are read off the translation function: the entry point the gates call must be that
+        # translation applied to the whole mask (C08's entry rule, re-evaluated: a digit level dropped in a hand-written copy of the
+        # loop biases every gate output)
+        from rules import c08
+        c08.check_entry(chk, v, rule="R3")
         # ---------------- R3 noise budget
         kf = ks_facts(v)
         df = decomp_facts(v)
